@@ -34,7 +34,10 @@ template <int F> void flavour_case(Rng& rng, std::uint64_t idx)
         .b("reload_after_rollback", reload_after).u("dims", cfg.dims).u("bins", cfg.bins).u("channels", cfg.channels).s("name1", cfg.name1);
     chk_t initial = Fl::initial(cfg, gen);
     // reference runs that performed only the first k iterations
-    std::vector<std::string> ref_text(m + 1), ref_gen(m + 1);
+    std::vector<std::string> ref_text(m + 1), ref_gen(m + 1), ref_alt_text(m + 1);
+    // a different continuation (other numbers of calls): the rolled-back checkpoint must behave like the run of k iterations under it, too
+    std::vector<std::size_t> alt;
+    for (std::size_t i = 0, n = rng.range(2, 3); i < n; ++i) alt.push_back(rng.range(60, 400));
     for (std::size_t k = 0; k <= m; ++k)
     {
         std::vector<std::size_t> first(calls.begin(), calls.begin() + k);
@@ -42,6 +45,7 @@ template <int F> void flavour_case(Rng& rng, std::uint64_t idx)
         ref_text[k] = text_of(r);
         ref_gen[k] = to_text(r.generator());
         if (r.results().size() != k) { viol("harness:reference-run-size", info); return; }
+        ref_alt_text[k] = text_of(Fl::run(cfg, r, alt, GoOnSerial()));
     }
     chk_t full = Fl::run(cfg, initial, calls, GoOnSerial());
     std::string full_text = text_of(full);
@@ -76,6 +80,16 @@ template <int F> void flavour_case(Rng& rng, std::uint64_t idx)
         }
         if (to_text(c.generator()) != ref_gen[k]) { viol("rolled-back-generator-differs:" + kind, inf); continue; }
         if (reload_after) { std::istringstream in(t); c = chk_t(in); if (in.fail()) { viol("rolled-back-checkpoint-cannot-be-reloaded:" + kind, inf); continue; } }
+        // a different continuation from the rolled-back checkpoint equals that continuation of the run that stopped after k
+        {
+            chk_t other = Fl::run(cfg, c, alt, GoOnSerial());
+            count("different_continuations_after_rollback");
+            if (text_of(other) != ref_alt_text[k])
+            {
+                viol(std::string("different-continuation-after-rollback-differs-from-that-of-the-run-of-k-iterations:") + Fl::name() + ":" + kind, J(inf).uv("continuation_calls", alt));
+                continue;
+            }
+        }
         // resume: the rest of the original run is reproduced exactly
         std::vector<std::size_t> rest(calls.begin() + k, calls.end());
         chk_t resumed = Fl::run(cfg, c, rest, GoOnSerial());
